@@ -211,3 +211,187 @@ func enumMixedCatalogue(seed int64, nseeds int, weighted bool, yield func(name s
 	}
 	return true
 }
+
+// optRegression: instances on which a defect was first seen outside the enumerated families (found by a random
+// campaign of a sub-agent against the unmodified tree: cutting planes + cost function never terminated, repair 0d0240d).
+// They are catalogue members like the seeded ones: explored with all their one-edit neighbours.
+var optRegression = []Prob{
+	{Front: "pb", N: 10, Cs: []Con{
+		{T: "ge", L: []int{3, -2, 10}, W: []int{1, 1, 1}, K: 2},
+		{T: "ge", L: []int{-8, -9, -6, 5, -1, 3, -4, 2, -10, -7}, W: []int{1, 1, 1, 1, 1, 1, 1, 1, 1, 1}, K: 6},
+		{T: "ge", L: []int{-7, 8}, W: []int{1, 1}, K: 2},
+		{T: "ge", L: []int{3, -8, 1, -9, -5, -4}, W: []int{1, 1, 1, 1, 1, 1}, K: 1},
+		{T: "ge", L: []int{9, -1, -8}, W: []int{1, 1, 1}, K: 1},
+		{T: "ge", L: []int{-4, -6, -7}, W: []int{1, 1, 1}, K: 2},
+		{T: "ge", L: []int{-4, 2, 9}, W: []int{1, 1, 1}, K: 2},
+		{T: "ge", L: []int{7, 8, 5, -6, 9, 2, -1, 10}, W: []int{1, 1, 1, 1, 1, 1, 1, 1}, K: 5},
+		{T: "ge", L: []int{5, 8, 9, -6, -3, 7, -2, -1}, W: []int{1, 1, 1, 1, 1, 1, 1, 1}, K: 4},
+		{T: "ge", L: []int{-1, -2, 3, 4, -5, -6, 7, 8, -9, -10}, W: []int{1, 1, 1, 1, 1, 1, 1, 1, 1, 1}, K: 1}},
+		CostL: []int{-2, -6, 4, -1, 5, -3, -8, -9, 10}, CostW: []int{1, 2, 4, 2, 1, 4, 3, 4, 2}},
+	{Front: "pb", N: 10, Cs: []Con{
+		{T: "ge", L: []int{-1, -2, 6, 7, 3, 9}, W: []int{1, 1, 1, 1, 1, 1}, K: 1},
+		{T: "ge", L: []int{-2, 7}, W: []int{2, 2}, K: 1},
+		{T: "ge", L: []int{1, 4, 6, 5, 8, -9}, W: []int{1, 1, 1, 2, 1, 1}, K: 4},
+		{T: "ge", L: []int{-10, -7, 1, -2, -6, -8, -5, 9, -4, 3}, W: []int{1, 1, 2, 1, 1, 2, 2, 2, 2, 2}, K: 13},
+		{T: "ge", L: []int{3, -7, -1, 4, -10, -6}, W: []int{2, 2, 2, 1, 2, 2}, K: 3},
+		{T: "ge", L: []int{1, 2, 3, 4, 5, 6, -7, 8, -9, 10}, W: []int{1, 1, 1, 1, 1, 1, 1, 1, 1, 1}, K: 1}},
+		CostL: []int{5, -9, 6, -7}, CostW: []int{1, 3, 4, 5}},
+	{Front: "pb", N: 10, Cs: []Con{
+		{T: "ge", L: []int{-3, -5, -6}, W: []int{1, 3, 2}, K: 2},
+		{T: "ge", L: []int{10, -4, -7}, W: []int{2, 1, 4}, K: 2},
+		{T: "ge", L: []int{-7, 2, -1, 8, -10, 4, 5}, W: []int{2, 4, 3, 5, 3, 3, 1}, K: 6},
+		{T: "ge", L: []int{-1, -6, 2, -9, 8, -4, 10}, W: []int{1, 4, 5, 3, 2, 5, 3}, K: 7},
+		{T: "ge", L: []int{-7, 2, -8, 9, -1, 5, -10, -6}, W: []int{5, 1, 3, 4, 3, 1, 1, 1}, K: 8},
+		{T: "ge", L: []int{-3, 8, 10}, W: []int{3, 3, 1}, K: 1},
+		{T: "ge", L: []int{7, 2}, W: []int{5, 2}, K: 2},
+		{T: "ge", L: []int{-5, 4, -7, 1, 6}, W: []int{1, 4, 3, 5, 2}, K: 4},
+		{T: "ge", L: []int{-3, -2, -6, -8}, W: []int{1, 4, 5, 4}, K: 3},
+		{T: "ge", L: []int{8, 7, -2, 9, 4, 10}, W: []int{1, 5, 1, 2, 2, 4}, K: 6},
+		{T: "ge", L: []int{-1, 2, 3, -4, 5, 6, -7, -8, -9, -10}, W: []int{1, 1, 1, 1, 1, 1, 1, 1, 1, 1}, K: 1}},
+		CostL: []int{4, 10, 5, 8, -2, -7, -6, 9}, CostW: []int{1, 5, 2, 1, 3, 2, 4, 2}},
+	{Front: "pb", N: 12, Cs: []Con{
+		{T: "ge", L: []int{6, 5, 4, 9, 11, -3, 8, -12, 1}, W: []int{2, 2, 3, 2, 3, 1, 1, 2, 2}, K: 5},
+		{T: "ge", L: []int{-8, 6, 9, -10, 2, -12, -11}, W: []int{4, 1, 2, 3, 4, 4, 1}, K: 16},
+		{T: "ge", L: []int{12, 11}, W: []int{1, 2}, K: 1},
+		{T: "ge", L: []int{8, 10, -5, -9, 4, 12, -7, -3, -1}, W: []int{4, 1, 3, 2, 2, 1, 1, 1, 2}, K: 6},
+		{T: "ge", L: []int{1, 11, 12, -10}, W: []int{4, 1, 1, 3}, K: 1},
+		{T: "ge", L: []int{8, 7, -2, 9, -12, 3, -6, -5, -11, -1, -4}, W: []int{2, 2, 2, 1, 3, 2, 1, 2, 1, 1, 1}, K: 3},
+		{T: "ge", L: []int{-7, -2, 12, -10, 11, 5, 3, 9}, W: []int{4, 4, 2, 1, 4, 2, 3, 3}, K: 8},
+		{T: "ge", L: []int{5, 7, -4}, W: []int{4, 2, 1}, K: 1},
+		{T: "ge", L: []int{2, 3, -1, -10, -6, 8, 4, -12, -9, 5}, W: []int{1, 3, 3, 2, 3, 1, 1, 3, 2, 4}, K: 7},
+		{T: "ge", L: []int{11, 1}, W: []int{2, 4}, K: 2},
+		{T: "ge", L: []int{1, 2, -3, 4, 5, -6, -7, 8, 9, 10, 11, 12}, W: []int{1, 1, 1, 1, 1, 1, 1, 1, 1, 1, 1, 1}, K: 1}},
+		CostL: []int{-1, -2, -7, 9, -5, 4, -10, -3, 8, -6}, CostW: []int{3, 5, 2, 5, 2, 4, 1, 1, 4, 5}},
+}
+
+// enumOptCatalogue yields MO: a seeded catalogue of optimisation problems over 8..12 variables (5..11 PB or
+// cardinality constraints of 2..n literals, weights 1..5, plus one clause over all variables; cost function over about
+// three quarters of the variables, either polarity, weights 1..5), the regression instances above, and ALL one-edit
+// neighbours of each: a constraint deleted, a degree +-1, a literal flipped, a cost weight +-1, a cost term dropped.
+func enumOptCatalogue(seed int64, nseeds int, yield func(name string, p Prob) bool) bool {
+	g := &lcg{s: uint64(seed)*104729 + 71}
+	gen := func() Prob {
+		n := 8 + int(g.next()%5)
+		m := 5 + int(g.next()%7)
+		var cs []Con
+		for i := 0; i < m; i++ {
+			k := 2 + int(g.next()%uint64(n-1))
+			used := map[int]bool{}
+			var l, w []int
+			unitW := g.next()&1 == 0
+			sum := 0
+			for len(l) < k {
+				v := 1 + int(g.next()%uint64(n))
+				if used[v] {
+					continue
+				}
+				used[v] = true
+				if g.next()&1 == 0 {
+					v = -v
+				}
+				l = append(l, v)
+				x := 1
+				if !unitW {
+					x = 1 + int(g.next()%5)
+				}
+				w = append(w, x)
+				sum += x
+			}
+			cs = append(cs, Con{T: "ge", L: l, W: w, K: 1 + int(g.next()%uint64(sum*2/3+1))})
+		}
+		var all, ones []int
+		for v := 1; v <= n; v++ {
+			x := v
+			if g.next()&1 == 0 {
+				x = -v
+			}
+			all = append(all, x)
+			ones = append(ones, 1)
+		}
+		cs = append(cs, Con{T: "ge", L: all, W: ones, K: 1})
+		p := Prob{Front: "pb", N: n, Cs: cs}
+		for v := 1; v <= n; v++ {
+			if g.next()%4 == 0 {
+				continue
+			}
+			x := v
+			if g.next()&1 == 0 {
+				x = -v
+			}
+			p.CostL = append(p.CostL, x)
+			p.CostW = append(p.CostW, 1+int(g.next()%5))
+		}
+		if len(p.CostL) == 0 {
+			p.CostL, p.CostW = []int{1}, []int{1}
+		}
+		return p
+	}
+	clone := func(p Prob) Prob {
+		q := p
+		q.Cs = cpCons(p.Cs...)
+		q.CostL = append([]int{}, p.CostL...)
+		q.CostW = append([]int{}, p.CostW...)
+		return q
+	}
+	one := func(name string, p Prob) bool {
+		if !yield(name, clone(p)) {
+			return false
+		}
+		for i := range p.Cs {
+			q := clone(p)
+			q.Cs = append(q.Cs[:i], q.Cs[i+1:]...)
+			if !yield(name+"-del", q) {
+				return false
+			}
+			for dk := -1; dk <= 1; dk += 2 {
+				q = clone(p)
+				q.Cs[i].K += dk
+				if q.Cs[i].K < 1 {
+					continue
+				}
+				if !yield(name+"-deg", q) {
+					return false
+				}
+			}
+			for j := range p.Cs[i].L {
+				q = clone(p)
+				q.Cs[i].L[j] = -q.Cs[i].L[j]
+				if !yield(name+"-flip", q) {
+					return false
+				}
+			}
+		}
+		for i := range p.CostL {
+			for dw := -1; dw <= 1; dw += 2 {
+				q := clone(p)
+				q.CostW[i] += dw
+				if q.CostW[i] < 0 {
+					continue
+				}
+				if !yield(name+"-costw", q) {
+					return false
+				}
+			}
+			if len(p.CostL) > 1 {
+				q := clone(p)
+				q.CostL = append(q.CostL[:i], q.CostL[i+1:]...)
+				q.CostW = append(q.CostW[:i], q.CostW[i+1:]...)
+				if !yield(name+"-costdrop", q) {
+					return false
+				}
+			}
+		}
+		return true
+	}
+	for _, p := range optRegression {
+		if !one("MO/reg", p) {
+			return false
+		}
+	}
+	for sd := 0; sd < nseeds; sd++ {
+		if !one("MO", gen()) {
+			return false
+		}
+	}
+	return true
+}
